@@ -80,7 +80,9 @@ def items(tier, seed):
     for n in ([30, 58] if tier == "quick" else [1, 2, 17, 30, 45, 58, 59]):
         out.append(("posref-late-air-n%02d" % n, {"n": n, "sign": "N", "kind": "air", "F": n % 2, "late": True, "weight": 5}))
         out.append(("posref-late-surf-n%02d" % n, {"n": n, "sign": "S", "kind": "surf", "F": (n + 1) % 2, "late": True, "weight": 5}))
-        out.append(("posglob-late-air-n%02d" % n, {"n": n, "sign": "N", "kind": "air", "F": n % 2, "late": True, "weight": 20}))
+        for F in (0, 1):      # a stale even frame with a new odd one AND the mirrored order
+            out.append(("posglob-late-air-n%02d-F%d" % (n, F), {"n": n, "sign": "N" if F else "S", "kind": "air", "F": F,
+                                                                "late": True, "weight": 20}))
     return out
 
 
